@@ -13,7 +13,7 @@ import logging
 
 import numpy as np
 
-from sim.node import Node
+from sim.node import Node, SimDisk, load_real_eop
 from sim.core import fhex
 
 LEVEL = "fault_enumeration"
@@ -198,7 +198,7 @@ def gen_plan(rng, tier, i):
     # catalogue faults (each applied alone to the pristine stored text)
     for _ in range(rng.randint(2, 6)):
         ops.append({"op": "catalogue_fault", "kind": rng.choice(["lose", "dup", "swap", "corrupt", "truncate", "lose", "corrupt", "zero_to_letter", "zero_to_letter"]), "line": rng.randrange(64), "col": rng.randrange(69), "digit": rng.randrange(1, 10), "policy": rng.choice(["ignore", "warn", "raise"])})
-    return {"knobs": {"records": recs, "comments": rng.random() < 0.3, "three_line": three, "all_line_faults": rng.random() < (1.0 if tier == "thorough" else 0.3)}, "ops": ops}
+    return {"knobs": {"records": recs, "real_eop": rng.random() < 0.3, "comments": rng.random() < 0.3, "three_line": three, "all_line_faults": rng.random() < (1.0 if tier == "thorough" else 0.3)}, "ops": ops}
 
 
 # ----------------------------------------------------------------------- run
@@ -269,11 +269,17 @@ class LogCatcher(logging.Handler):
 def run_plan(plan, ctx):
     kn = plan["knobs"]
     recs = kn["records"]
-    W = Node("writer")
-    R = Node("reader")
+    disk = SimDisk()
+    if kn.get("real_eop"):
+        load_real_eop(disk)  # both processes see the IERS tables (TAI-UTC is then not zero for 1973-2017 epochs)
+    W = Node("writer", disk=disk)
+    R = Node("reader", disk=disk)
     for n in (W, R):
         with n:
-            n.config.update({"eop": {"missing_policy": "pass"}})
+            cfg = {"eop": {"missing_policy": "pass"}}
+            if kn.get("real_eop"):
+                cfg["eop"]["folder"] = "/eop"
+            n.config.update(cfg)
     # ------------------------------------------------------------ writer
     entries = []  # per entry: dict(lines=[name?, l1, l2], want=fields, exact=bool, dt=datetime)
     with W:
@@ -424,6 +430,10 @@ def check_entry(ctx, R, TleR, e, t, k):
     o1.revolutions = 1
     o2 = t.orbit()
     ctx.probe("orbit_called_twice_with_mutation")
+    # ... the orbit is handed to another worker and back (pickle) ...
+    import pickle
+
+    o2 = pickle.loads(pickle.dumps(o2))
     # ... and a frame change of the orbit that fails (the Hill frame cannot be converted to) leaves it as parsed
     try:
         o2.frame = "Hill"
